@@ -90,4 +90,90 @@ pub fn compile_cmd(args: &[String]) {
   }
 }
 
-pub fn dump_cmd(_args: &[String]) {}
+fn parse_and_check(
+  heap: &mut Heap,
+  args: &[String],
+) -> Result<HashMap<ModuleReference, samlang_ast::source::Module<std::sync::Arc<samlang_checker::type_::Type>>>, String> {
+  let (mut texts, _) = read_sources(heap, args);
+  for (mr, t) in samlang_parser::builtin_std_raw_sources(heap) {
+    texts.entry(mr).or_insert(t);
+  }
+  let mut error_set = ErrorSet::new();
+  let mut parsed = HashMap::new();
+  for (mr, t) in &texts {
+    parsed.insert(*mr, samlang_parser::parse_source_module_from_text(t, *mr, heap, &mut error_set));
+  }
+  let (checked, _) = samlang_checker::type_check_sources(&parsed, &mut error_set);
+  if error_set.has_errors() {
+    return Err(error_set.pretty_print_error_messages_no_frame_for_test(heap));
+  }
+  Ok(checked)
+}
+
+fn config_of(mask: &str) -> samlang_optimization::OptimizationConfiguration {
+  let b: Vec<bool> = mask.chars().map(|c| c == '1').collect();
+  samlang_optimization::OptimizationConfiguration {
+    does_perform_local_value_numbering: b[0],
+    does_perform_common_sub_expression_elimination: b[1],
+    does_perform_loop_optimization: b[2],
+    does_perform_inlining: b[3],
+    does_perform_scalar_replacement: b[4],
+  }
+}
+
+/// vdriver dump <outdir> <cfgs: comma separated 5-bit masks lvn,cse,loop,inline,sroa | none> <module=path>...
+/// Runs the real pipeline stage by stage and writes a JSON snapshot of every IR:
+///   mir_unopt.json, mir_opt_<mask>.json, and for mask 11111 also lir.json, all.wat, all.ts
+/// Each optimizer configuration is produced by an independent run of the real front end + optimizer.
+pub fn dump_cmd(args: &[String]) {
+  let outdir = &args[0];
+  let cfgs: Vec<&str> = if args[1] == "none" { Vec::new() } else { args[1].split(',').collect() };
+  std::fs::create_dir_all(outdir).unwrap();
+  let r = std::panic::catch_unwind(std::panic::AssertUnwindSafe(|| {
+    let heap = &mut Heap::new();
+    let checked = match parse_and_check(heap, &args[2..]) {
+      Ok(c) => c,
+      Err(e) => {
+        println!("{{\"status\":\"rejected\",\"errors\":{}}}", json_str(&e));
+        return;
+      }
+    };
+    let mut written = vec!["mir_unopt.json".to_string()];
+    let od = outdir.clone();
+    let mut stage_files: Vec<String> = Vec::new();
+    let mir = samlang_compiler::verif_hooks::compile_sources_to_mir_staged(heap, &checked, |name, h, src| {
+      std::fs::write(format!("{}/mir_{}.json", od, name), crate::irjson::mir_sources(h, src)).unwrap();
+      stage_files.push(format!("mir_{}.json", name));
+    });
+    written.extend(stage_files);
+    std::fs::write(format!("{}/mir_unopt.json", outdir), crate::irjson::mir_sources(heap, &mir)).unwrap();
+    for mask in &cfgs {
+      // one front-end run; every configuration optimizes a deep copy of the same unoptimized MIR
+      let copy = samlang_ast::mir::verif_harness::clone_sources(&mir);
+      let opt = samlang_optimization::optimize_sources(heap, copy, &config_of(mask));
+      std::fs::write(format!("{}/mir_opt_{}.json", outdir, mask), crate::irjson::mir_sources(heap, &opt)).unwrap();
+      written.push(format!("mir_opt_{}.json", mask));
+      if *mask == "11111" {
+        let mut lir = samlang_compiler::compile_mir_to_lir(heap, opt);
+        std::fs::write(format!("{}/lir.json", outdir), crate::irjson::lir_sources(heap, &lir)).unwrap();
+        let ts = lir.pretty_print(heap);
+        std::fs::write(format!("{}/all.ts", outdir), ts).unwrap();
+        let _ = &mut lir;
+        let (wat, wasm) = samlang_compiler::compile_lir_to_wasm(heap, lir);
+        std::fs::write(format!("{}/all.wat", outdir), wat).unwrap();
+        let mut v = wasmparser::Validator::new_with_features(wasmparser::WasmFeatures::all());
+        let verr = match v.validate_all(&wasm) {
+          Ok(_) => "null".to_string(),
+          Err(e) => json_str(&format!("{}", e)),
+        };
+        std::fs::write(format!("{}/wasm_validation.json", outdir), format!("{{\"error\":{}}}", verr)).unwrap();
+        written.push("lir.json".to_string());
+        written.push("all.wat".to_string());
+      }
+    }
+    println!("{{\"status\":\"ok\",\"files\":[{}]}}", written.iter().map(|w| json_str(w)).collect::<Vec<_>>().join(","));
+  }));
+  if r.is_err() {
+    println!("{{\"status\":\"panic\"}}");
+  }
+}
